@@ -23,7 +23,7 @@ def run(replay=None):
     with core.Lock('coq'):
         rep, tlog = core.translate()
     for u in rep['untranslatable']:
-        if u['group'] == 'Nearest':
+        if u['group'] == 'Nearest' or (u['group'] == 'Linear' and 'nearest' in u['name']):
             chk.obligation_broken('translation of ' + u['name'], u['why'])
     chk.cov['rounding_callee_in_source'] = rep.get('nearest')
     chk.prove('Properties_C04.v')
